@@ -1,13 +1,45 @@
-# Per-property tier parameters and evidence texts. Runs/budgets are targets; every count in the evidence is measured.
+# Per-property tier parameters and manifest/evidence texts. Run counts and budgets are targets; every count in
+# the evidence is measured by the run itself.
+
 
 def T(qr, qb, tr, tb):
     return {"quick": {"runs": qr, "budget": qb}, "thorough": {"runs": tr, "budget": tb}}
 
+
+NOTE = ("Trusted base: the AST instrumenter (cmd/verif-instr; self-tested by running the repository's tests on the instrumented copy), "
+        "the run-token scheduler + testing/synctest of go1.26.8, the simulated transport (sim/simnet) and the oracle code. "
+        "Preemption only at instrumented visible operations; sampling of schedules, not enumeration.")
+
 PROPS = {
-    "C01": dict(T(24000, 40, 1500000, 900), rule="Scenario: 1-4 writer tasks x 1-5 calls over the five low-level entry points, payload sizes 0..70001, async queue sizes {1,2,3,8,64} in both wait modes or the synchronous channel; transport accepts everything."),
-    "C02": dict(T(24000, 40, 1500000, 900), rule="Scenario: writers finish, nothing else touches the channel; judged at quiescence (no runnable task, no timer for one fake hour)."),
-    "C06": dict(T(24000, 40, 1500000, 900), rule="Scenario: all writers return, then one Close (user task or handler); stall decisions (1ms..1.1s of fake time while tasks are runnable) enabled."),
-    "C10": dict(T(16000, 40, 1000000, 900), rule="Scenario: callers overwrite their buffers right after each call; 0-2 scribbler tasks take, poison and return pooled buffers of every size class."),
-    "C11": dict(T(16000, 40, 1000000, 900), rule="Scenario: Close(nil|sentinel|wrapped) from a task or a handler returns, then 1-3 writes over all seven entry points."),
-    "C18": dict(T(16000, 40, 1000000, 900), rule="Scenario: sender stalled in the transport (released later on the fake clock) or slow; plain and Ctx entry points with background / cancelled / expiring contexts; optional concurrent Close."),
+    "C01": dict(T(24000, 40, 1500000, 900),
+                text="Seeded exploration of writer/sender interleavings on the real channel code: every run parses the bytes handed to the simulated transport back into the unique payloads of the calls and checks whole/unmodified/at-most-once/per-writer order/real-time order/no bytes from failed calls, and that every transport write ends on a payload boundary. Catches what one-writer tests cannot: losses, duplicates, reorderings and torn payloads that need specific preemptions.",
+                note=NOTE,
+                rule="Scenario: 1-4 writer tasks x 1-5 calls over the five low-level entry points, payload sizes 0..70001, async queue sizes {1,2,3,8,64} in both wait modes or the synchronous channel; transport accepts everything."),
+    "C02": dict(T(24000, 40, 1500000, 900),
+                text="Bounded liveness judged at simulator quiescence (no runnable task and no timer for a fake hour): every accepted payload is on the wire and flushed, every call returned. The lost-wake-up window between the sender's last queue check and its release is reached by preempting at the instrumented atomics.",
+                note=NOTE,
+                rule="Scenario: writers finish, nothing else touches the channel; judged at quiescence."),
+    "C06": dict(T(24000, 40, 1500000, 900),
+                text="Seeded exploration including stall decisions (fake time passes while a task is descheduled): all payloads accepted before Close was invoked must be written and flushed before the transport close event, and no close event may fall inside a transport write of the sender. Found the pinned-tree defect (fixed in /repo).",
+                note=NOTE + " Bounded-wait channels are exempted when Close really waited its whole grace period (>= 1 s of fake time), as the property states.",
+                rule="Scenario: all writers return, then one Close (user task or handler); stall decisions (1ms..1.1s of fake time while tasks are runnable) enabled."),
+    "C10": dict(T(16000, 40, 1000000, 900),
+                text="Callers poison their buffers immediately after each call returns while scribbler tasks take, poison and return pooled buffers of every size class; the simulated pool prefers handing a just-recycled buffer to somebody else. The wire must still parse into the payloads as they were at call time.",
+                note=NOTE + " sync.Pool is replaced by a deterministic pool whose hit/miss/which-object decisions come from the tape.",
+                rule="Scenario: callers overwrite their buffers right after each call; 0-2 scribbler tasks take, poison and return pooled buffers of every size class."),
+    "C11": dict(T(16000, 40, 1000000, 900),
+                text="After a Close call (nil, sentinel or wrapped error; from a task or from a handler) has returned, 1-3 writes over all seven entry points must return a non-nil error with n == 0 and nothing may reach the transport; select orders come from the tape, so the 'closed' vs 'queue has room' choice is explored deliberately. Found the pinned-tree defects (fixed in /repo).",
+                note=NOTE,
+                rule="Scenario: Close(nil|sentinel|wrapped) from a task or a handler returns, then 1-3 writes over all seven entry points; optional writers overlapping the Close."),
+    "C18": dict(T(16000, 40, 1000000, 900),
+                text="Writers against a sender that is stalled inside the transport (released later on the fake clock) or merely slow: non-blocking mode must never park (the scheduler observes blocked tasks), queue-full only when the queue can have been full, blocking mode returns only success / context error / close error and transmits nothing on error, accepted-minus-sent never exceeds queue size + batch.",
+                note=NOTE + " The queue-full and backlog clauses are necessary conditions computed from call and transport events (sound, not exact).",
+                rule="Scenario: sender stalled in the transport or slow; plain and Ctx entry points with background / cancelled / expiring contexts; optional concurrent Close."),
 }
+
+NOT_APPLICABLE = {
+    "C03": "Pipeline order and routing are pure functions of the build program and the event: the handler list is immutable after build and traversed by whichever goroutine delivers the event; no schedule, clock, fault or I/O behaviour enters. Simulation would only be relabelled input generation (DESIGN.md section 3, C03).",
+    "C19": "pool.Pool adds no concurrency, time or I/O of its own: shard choice is arithmetic on sizes, mutual exclusion is entirely sync.Pool's, which the simulator has to replace by a stub, so simulated concurrent use would exercise the stub and not the repository (DESIGN.md section 3, C19).",
+}
+for _p in ["C04", "C05", "C07", "C08", "C09", "C12", "C13", "C14", "C15", "C16", "C17", "C20"]:
+    NOT_APPLICABLE.setdefault(_p, "check under construction in this session (planned as applicable, DESIGN.md section 3); not claimed until it runs clean")
